@@ -306,7 +306,17 @@ pub fn nesting_bomb(r: &mut Rng) -> String {
         _ => r.range(1, 64),
     } as usize;
     let close = r.below(3); // 0 balanced, 1 unclosed, 2 partially closed
-    let (pre, open, inner, shut, post): (&str, &str, &str, &str, &str) = match r.below(12) {
+    let (pre, open, inner, shut, post): (&str, &str, &str, &str, &str) = match r.below(20) {
+        // operators applied to parenthesised operands that are not literals, casts, calls and index
+        // chains: nesting that the analysis (not only the parser) walks
+        12 => ("int y = ", "-(", "a", ")", ";"),
+        13 => ("int y = ", "-(", "1", ")", ";"),
+        14 => ("bool b = ", "!(", "c", ")", ";"),
+        15 => ("int y = ", "~(", "a", ")", ";"),
+        16 => ("float y = ", "float(", "a", ")", ";"),
+        17 => ("int y = ", "(a + ", "b", ")", ";"),
+        18 => ("int y = ", "a[", "0", "]", ";"),
+        19 => ("int y = ", "-(-", "a", ")", ";"),
         0 => ("x = ", "(", "1", ")", ";"),
         1 => ("int y = ", "-", "1", "", ";"),
         2 => ("", "{ ", "int a;", " }", ""),
